@@ -59,7 +59,7 @@ Proof.
             forall f : list reply -> aout, (forall x, f x = (r', [], x, c', d', false)) ->
             exists rs, forall x, f (rs ++ x) = (r, l, x, c1, d1, lk)).
   { intros r' c' d' Heq f Hf. inversion Heq; subst. exists []. intros x. apply Hf. }
-  destruct a as [m withctx | | | | |].
+  destruct a as [m withctx | | | | | |].
   - destruct (sctxapi sc && withctx && canc) eqn:E1.
     { apply (Hsil _ _ _ H (fun x => do_action t sc k (AStmt m withctx) canc done x)).
       intros x. unfold do_action. rewrite E1. reflexivity. }
@@ -76,6 +76,7 @@ Proof.
     unfold do_action. rewrite (Hrs x). reflexivity.
   - apply (Hsil _ _ _ H (fun x => do_action t sc k ACancel canc done x)). intros x. reflexivity.
   - apply (Hsil _ _ _ H (fun x => do_action t sc k ANop canc done x)). intros x. reflexivity.
+  - apply (Hsil _ _ _ H (fun x => do_action t sc k ATrip canc done x)). intros x. reflexivity.
 Qed.
 
 Lemma finish_local : forall rf g t sc done o O st' l O1 lk,
